@@ -28,7 +28,7 @@ def build(ctx, pid):
     if pid == "C03":
         return scen.stop_grid_runs(ctx) + scen.general_runs(ctx, 15 if q else 300, batches=True, full_snap=False)
     if pid == "C04":
-        return scen.equal_value_runs(ctx, 30 if q else 600) + scen.general_runs(ctx, 20 if q else 400, batches=True, refine=True) \
+        return scen.equal_value_runs(ctx, 30 if q else 600) + scen.tiny_improvement_runs(ctx, 8 if q else 120) + scen.general_runs(ctx, 20 if q else 400, batches=True, refine=True) \
             + scen.interleaved_runs(ctx, 6 if q else 100, full_snap=False)
     if pid == "C05":
         return scen.box_runs(ctx, 60 if q else 1200) + scen.general_runs(ctx, 15 if q else 300, batches=True, refine=True, full_snap=False) \
